@@ -39,6 +39,19 @@ def counted_specs(d):
             out.append(('cycle%d:%s' % (n, s), (), ('cycle', N(n), v, None if s is None else N(s)), (v,)))
     out.append(('cycle0', (), ('cycle', N(0), v, None), (v,)))
     out.append(('while0', (), ('while', N(0)), ()))
+    # bounds, counts and start angles that read the loop's own variable: all of them are evaluated before the
+    # variable gets its first value
+    pre = lambda x: (('assign', v, N(x)),)
+    out.append(('range-self-to', pre(4), ('range', v, N(1), V(v)), (v,)))
+    out.append(('range-self-from', pre(2), ('range', v, V(v), N(4)), (v,)))
+    out.append(('range-self-both', pre(2), ('range', v, V(v), ('bin', '*', V(v), N(2))), (v,)))
+    out.append(('range-self-down', pre(3), ('range', v, N(5), V(v)), (v,)))
+    out.append(('interp-self-to', pre(30), ('interp', N(3), v, N(10), V(v)), (v,)))
+    out.append(('interp-self-from', pre(30), ('interp', N(3), v, V(v), N(10)), (v,)))
+    out.append(('interp-self-count', pre(3), ('interp', V(v), v, N(0), N(10)), (v,)))
+    out.append(('interp-self-all', pre(2), ('interp', V(v), v, V(v), ('bin', '+', V(v), N(4))), (v,)))
+    out.append(('cycle-self-start', pre(90), ('cycle', N(3), v, V(v)), (v,)))
+    out.append(('cycle-self-count', pre(3), ('cycle', V(v), v, None), (v,)))
     return out
 
 
@@ -54,6 +67,10 @@ def light_specs(pop, d):
     p = locs[0] if locs else 'p'
     withs = [None, ('from', v, N(10), N(30)), ('from', v, N(1), N(-1)), ('cycle', v, None), ('cycle', v, N(90))]
     out = []
+    # a range over the lights whose bounds read the range variable itself
+    out.append(('all/self-to', (('assign', v, N(30)),), ('all', l, ('from', v, N(10), V(v))), (l, v)))
+    out.append(('all/self-from', (('assign', v, N(30)),), ('all', l, ('from', v, V(v), N(10))), (l, v)))
+    out.append(('all/self-cycle', (('assign', v, N(45)),), ('all', l, ('cycle', v, V(v))), (l, v)))
     for w in withs:
         wt = 'plain' if w is None else w[0] + str(w[2][1] if w[2] else '')
         vs = (l,) + ((v,) if w else ())
@@ -140,6 +157,8 @@ def nested(pop, level=1):
                 ib += [('assign', 'k', ('bin', '+', V('k'), N(1))),
                        ('if', ((('bin', '>=', V('k'), N(2)), (('break',),)),), None)]
             ob = body_for(v0, 1, False, 'n')
+            inner_pre = tuple(x for x in p1 if x not in p0) if 'self' in t1 else ()
+            ob += list(inner_pre)       # the value a loop leaves in its variable is not documented: assign it anew on every entry
             ob.append(_loop(s1, ib))
             ob.append(('print', N(3)))
             if l0:
@@ -149,7 +168,8 @@ def nested(pop, level=1):
             if brk == 'ok':
                 ob += [('assign', 'j', ('bin', '+', V('j'), N(1))),
                        ('if', ((('bin', '>=', V('j'), N(2)), (('break',),)),), None)]
-            pre = (('assign', 'k', N(0)), ('assign', 'j', N(0))) + p0 + tuple(x for x in p1 if x not in p0)
+            pre = (('assign', 'k', N(0)), ('assign', 'j', N(0))) + p0 + \
+                (() if inner_pre else tuple(x for x in p1 if x not in p0))
             yield '%s>%s/%s' % (t0, t1, brk), pre + (_loop(s0, ob), ('print', N(99)))
 
 
@@ -212,3 +232,23 @@ def programs(pop, nest):
 def returns_from_nested_programs(pop):
     for tag, p in returns_from_nested(pop):
         yield p
+
+
+def self_bound_programs(pop):
+    """Loops whose count, bounds or start angle read (or, through a routine, write) the loop's own variable:
+    everything in the loop header is evaluated before the variable receives its first value."""
+    for tag, p in single(pop):
+        if 'self' in tag:
+            yield p
+    v = 'v0'
+    f_reads = ('define', 'f', (), (('return', ('bin', '+', V(v), N(2))),))
+    f_loops = ('define', 'f', (), (('repeat', ('range', v, N(7), N(8)), (('act', 'on', (('light', ('str', 'a')),)),)),
+                                   ('return', N(3))))
+    for d in (f_reads, f_loops):
+        for spec in (('range', v, N(1), ('call', 'f', ())), ('range', v, ('call', 'f', ()), N(6)),
+                     ('interp', N(3), v, N(0), ('call', 'f', ())), ('cycle', N(2), v, ('call', 'f', ())),
+                     ('interp', ('call', 'f', ()), v, N(1), N(2))):
+            body = (('print', V(v)), ('act', 'set', (('light', ('str', 'a')),)))
+            yield (('assign', v, N(1)), d, ('repeat', spec, body), ('print', N(99)))
+            yield (('assign', v, N(1)), d, ('setreg', 'brightness', N(10)),
+                   ('repeat', spec, (('setreg', 'hue', V(v)),) + body), ('print', N(99)))
